@@ -393,7 +393,7 @@ func (g *condGen) scenario(name string) {
 		case 0, 1:
 			// full and open: the retrying add and a consumer side by side
 			if la, ok := g.launch(rnd.Intn(2) == 0); ok {
-				g.exec(cBatch{Launches: []cLaunch{la}, Lanes: [][]cOp{{{Op: addKind, X: g.item(), Anyway: true}}}})
+				g.exec(cBatch{Launches: []cLaunch{la}, Lanes: [][]cOp{{{Op: addKind, X: g.item(), Anyway: true}}}, LanesFirst: true})
 			}
 		case 2:
 			// full, then closed: the retrying add gives up with ErrClosed
